@@ -176,6 +176,18 @@ class P:
                         break
                 self.expect(")")
                 return ("pctor", path, ps)
+            if self.at("{") and path[-1][0].isupper() and self.peek(1)[0] == "id" and self.peek(2)[1] in (":", ",", "}"):
+                self.next()                                  # struct pattern `Name { field: pat, field, .. }`
+                fs = []
+                while not self.at("}"):
+                    if self.eat(".."):
+                        break
+                    name = self.next()[1]
+                    fs.append((name, self.pattern() if self.eat(":") else ("pvar", name)))
+                    if not self.eat(","):
+                        break
+                self.expect("}")
+                return ("pstruct", path, fs)
             if len(path) == 1 and (path[0][0].islower() or path[0][0] == "_"):
                 return ("pvar", path[0])
             return ("pctor", path, [])
